@@ -3,7 +3,7 @@
 (* {ES256, EdDSA, unknown algorithm, ES256 with unknown type}; all attestation *)
 (* format lists of length 0..MaxF over {packed, none, tpm, other}; algorithm   *)
 (* identifiers across the i32 range; type strings up to the capacity.  C14.    *)
-EXTENDS Ctap, Gen
+EXTENDS Ctap, Gen, Dict
 
 CONSTANTS MaxP, MaxF
 
@@ -35,6 +35,22 @@ AlgCases ==
     {SentCase(1, [McBaseAfter EXCEPT !.pubKeyCredParams = <<[alg |-> a, type |-> t], ParamOf(ALG_EdDSA)>>], "params-alg", F) :
         a \in AlgValues, t \in TypeStrings}
 
+\* candidates for an identifier WRONGLY taken for a known one: congruent to -7 / -8 modulo 2^8 and
+\* 2^16, the other signature algorithms of the IANA COSE registry, every integer literal of the
+\* source; alone, in front of the two known ones and between them (where it would crowd one out)
+AlgCandidates == {249, 248, -263, -264, 505, 504, 65529, 65528, -65543, -65544}
+                 \cup {-9, -19, -35, -36, -37, -38, -39, -47, -48, -49, -50, -51, -52, -53, -258, -259, -65535}
+                 \cup DictInts
+AlgCandidateCases ==
+    {SentCase(1, [McBaseAfter EXCEPT !.pubKeyCredParams = l], "params-alg-candidate", F) :
+        l \in UNION {{<<ParamOf(a)>>, <<ParamOf(a), ParamOf(ALG_ES256), ParamOf(ALG_EdDSA)>>, <<ParamOf(ALG_EdDSA), ParamOf(a), ParamOf(ALG_ES256)>>}
+                      : a \in AlgCandidates}}
+    \* the type of an entry over the dictionary (a second spelling of "public-key" must not exist)
+    \cup {SentCase(1, [McBaseAfter EXCEPT !.pubKeyCredParams = <<[alg |-> ALG_ES256, type |-> w], ParamOf(ALG_EdDSA)>>], "params-type-candidate", F) :
+             w \in {x \in DictAscii : Len(x) <= 32}}
+    \cup {SentCase(1, [McReqMin EXCEPT !.attestationFormatsPreference = <<<<w, N_packed>>>>], "formats-candidate", F) :
+             w \in {x \in DictAscii : Len(x) <= 32}}
+
 \* a long list (the changelog promises more than twelve entries are fine)
 LongCases ==
     {SentCase(1, [McReqMin EXCEPT !.pubKeyCredParams = [i \in 1..n |-> IF i = k THEN ParamOf(ALG_EdDSA) ELSE ParamOf(-256 - i)]],
@@ -48,7 +64,7 @@ FormatCases ==
     \* the format list is the last parameter of both commands; inside a descriptor-bearing request
     \* nothing follows it either, so the "followed by" case is exercised through the parameter list
 
-MC_Cases == ParamCases \cup AlgCases \cup LongCases \cup FormatCases
+MC_Cases == ParamCases \cup AlgCases \cup LongCases \cup FormatCases \cup AlgCandidateCases
 
 (***************************************************************************)
 (* C14 on the model: never rejected, filtered in order                     *)
